@@ -251,11 +251,13 @@ def intoIterNextK (kind : IntoKind) : SM K V Q (Option (K × V)) := do
   | some p =>
     match kind with
     | .pairs => pure (some p)
+    -- if the discarded half's drop unwinds, the kept half already sits in the return place
+    -- and is leaked (observed on the real crate)
     | .keys => do
-      unwindWith (dropK p.1) (dropV E p.2)
+      unwindWith (leak (.k p.1)) (dropV E p.2)
       pure (some p)
     | .values => do
-      unwindWith (dropV E p.2) (dropK p.1)
+      unwindWith (leak (.v p.2)) (dropK p.1)
       pure (some p)
 
 def intoIterTake (kind : IntoKind) : Nat → SM K V Q (List (K × V))
@@ -271,7 +273,9 @@ def intoIterTake (kind : IntoKind) : Nat → SM K V Q (List (K × V))
     point (`self.map.iter()`: ascending, not in yield order). -/
 def intoIterOp (kind : IntoKind) (take : Nat) (forget : Bool) :
     SM K V Q (List (K × V) × Nat × List (K × V)) := do
-  let items ← intoIterTake E kind take
+  -- a panicking `next` (drop of the discarded half) unwinds through the iterator's owner:
+  -- the iterator, and with it the rest of the map, is dropped
+  let items ← unwindWith (dropAndRenew E) (intoIterTake E kind take)
   let remaining ← getLen
   let s ← getS
   let rest ← entriesOf s.r
@@ -374,7 +378,7 @@ def entryFinish (fin : EntryEnd V) (e : EntryS K) : SM K V Q (RV K V) := do
   | .occ_get, .occ i => do pure (.ref i (.val (← occ_get i).2))
   | .occ_get_mut g, .occ i => do pure (.ref i (.val (← occ_get_mut i g).2))
   | .occ_insert v, .occ i => do pure (.val (← occ_insert E i v))
-  | .occ_remove, .occ i => do pure (.val (← occ_remove E i))
+  | .occ_remove, .occ i => do pure (.val (← occ_remove i))
   | .occ_remove_entry, .occ i => do
     let p ← occ_remove_entry i
     pure (.pair p.1 p.2)
